@@ -94,7 +94,13 @@ def handle : List Sexp → Option Sexp
       let textHolds := match serRun SerSt.init (flatten p xs) with
         | some out => decide (Reader.read out = some (canonX xs))
         | none => false
-      pure (.list [ofBool inDom, ofBool holds, ofBool inText, ofBool textHolds])
+      -- the same under the narrowest codec of the property (ASCII)
+      let ascii : Char → Bool := fun c => c.toNat < 128
+      let inAscii := inText && repMarkup ascii (flatten p xs)
+      let asciiHolds := match serRun SerSt.init (flatten p xs) with
+        | some out => decide (Reader.read (encodeText ascii out) = some (canonX xs))
+        | none => false
+      pure (.list [ofBool inDom, ofBool holds, ofBool inText, ofBool textHolds, ofBool inAscii, ofBool asciiHolds])
   | [.atom "coalesce", s] => do
       let s ← streamOfSexp? s
       pure (streamToSexp (coalesce s))
